@@ -652,14 +652,14 @@ def _arr(name, sh, as_="nd"):
     return [name, {"sh": sh, "d": [f"{name}_{k}" for k in range(n)], "as": as_}]
 
 
-def _outer_request(rng):
+def _outer_request(rng, small=False):
     """Two stored intermediates consumed as an OUTER PRODUCT (every element is read several times), optionally a second
     consumer of one of them in the same generation."""
-    ni, nj = rng.randint(2, 3), rng.randint(2, 4)
+    ni, nj = (2, 2) if small else (rng.randint(2, 3), rng.randint(2, 4))
     funcs = [_fd("f0", ["a"], ["x0"], {"i": [["x0", ["i"]]], "o": [["a", ["i"]]]}, nullable=rng.random() < 0.3),
              _fd("f1", ["b"], ["x1"], {"i": [["x1", ["j"]]], "o": [["b", ["j"]]]}),
              _fd("f2", ["z"], ["a", "b"], {"i": [["a", ["i"]], ["b", ["j"]]], "o": [["z", ["i", "j"]]]})]
-    if rng.random() < 0.6:
+    if not small and rng.random() < 0.6:
         funcs.append(_fd("f3", ["u"], ["a"], {"i": [["a", ["i"]]], "o": [["u", ["i"]]]}))
     return {"funcs": funcs, "internal": [],
             "inputs": [_arr("x0", [ni], rng.choice(["list", "nd"])), _arr("x1", [nj], rng.choice(["list", "nd"]))]}
@@ -722,8 +722,9 @@ def _stale_folder_case(rng, req, thorough):
         except Exception:  # noqa: BLE001
             continue
         plan = [("process", "shared_memory_dict", "map"), ("process", "shared_memory_dict", "async"),
-                ("thread", "shared_memory_dict", rng.choice(["map", "async"])),
                 ("ctl", rng.choice(["shared_memory_dict", "file_array"]), rng.choice(["map", "async"]))]
+        if thorough:
+            plan.append(("thread", "shared_memory_dict", rng.choice(["map", "async"])))
         if thorough:
             plan += [("process", "file_array", "map"), ("default", "shared_memory_dict", "map")]
         for exec_, storage, entry in plan:
@@ -822,7 +823,7 @@ SWEEP_KINDS = ["dict", "dict", "file_array", "file_array", "mix", "mix", "shared
 
 def generate(rng, tier, mult):
     thorough = tier != "quick"
-    n_req = (26 if not thorough else 160) * mult
+    n_req = (12 if not thorough else 150) * mult
     k_random = 4 if not thorough else 10
     cases = []
     n_chain = 2 if not thorough else 8
@@ -925,10 +926,10 @@ def generate(rng, tier, mult):
             if resume:
                 cases.append({"req": req, "gens": gens, "runs": [], "resume": resume})
     # fixed families (every seed, both tiers)
-    for make in (_outer_request, _broadcast_request) * (1 if not thorough else 3):
+    for make in (_outer_request, _broadcast_request, _outer_request) * ((1 if not thorough else 2) * mult):
         with contextlib.suppress(Exception):
             cases.append(_race_case(rng, make(rng), 4 if not thorough else 8))
-    for make in (_plain_chain, _outer_request) * (1 if not thorough else 3):
+    for make in (_plain_chain, lambda r: _outer_request(r, small=True), _plain_chain) * ((1 if not thorough else 2) * mult):
         with contextlib.suppress(Exception):
             cases.append(_stale_folder_case(rng, make(rng), thorough))
     return cases
